@@ -328,6 +328,8 @@ def truth(v, facts):
             return truth(a[2], facts)
         ra, rb = truth(a[1], facts), truth(a[2], facts)
         return ra if ra is not None and ra == rb else None
+    if nm in ("call:np.any", "call:np.all") and len(a) == 1 and app(a[0], "tuple") is not None:
+        return truth(F.fn("bool:Or" if nm.endswith("any") else "bool:And", *app(a[0], "tuple")[1]), facts)
     if nm in ("call:bool", "call:np.any", "call:np.all") and len(a) == 1:
         return truth(a[0], facts)
     if nm.startswith("cmp:") and len(a) == 2:
